@@ -147,3 +147,56 @@ func TestEveryPair(t *testing.T) {
 	}
 	pbt.Exhaustive(t)
 }
+
+// TestEveryCondition: every condition code x every kind of condition value (scalar, list,
+// list of lists, object, null) x keys that resolve to every kind of element value of the
+// populated graph (number, text, list, object, missing, reserved fields, a mark's field).
+func TestEveryCondition(t *testing.T) {
+	if _, ok := pbt.ReplayFile(); ok {
+		t.Skip("replay mode")
+	}
+	mk := func(v interface{}) *structpb.Value {
+		x, err := structpb.NewValue(v)
+		if err != nil {
+			panic(err)
+		}
+		return x
+	}
+	values := []*structpb.Value{
+		mk("a"), mk(1.0), mk(true), structpb.NewNullValue(),
+		mk([]interface{}{0.0, "a"}), mk([]interface{}{}), mk([]interface{}{[]interface{}{0.0, "a"}, "a"}),
+		mk(map[string]interface{}{"k": 0.0}), mk(map[string]interface{}{}), mk([]interface{}{map[string]interface{}{"k": 0.0}}),
+		mk([]interface{}{1.0, 2.0}),
+	}
+	keys := []string{"k", "s", "l", "a", "a.k", "b", "nope", "_gid", "_label", "_data", "$a.l", "$a.a", "$a"}
+	v := &gripql.GraphStatement{Statement: &gripql.GraphStatement_V{}}
+	as := &gripql.GraphStatement{Statement: &gripql.GraphStatement_As{As: "a"}}
+	out := &gripql.GraphStatement{Statement: &gripql.GraphStatement_Out{}}
+	i := 0
+	for cond := 0; cond <= 13; cond++ {
+		for _, key := range keys {
+			for _, val := range values {
+				for _, negate := range []bool{false, true} {
+					i++
+					if !pbt.ShardOwns(i) {
+						continue
+					}
+					e := &gripql.HasExpression{Expression: &gripql.HasExpression_Condition{Condition: &gripql.HasCondition{Key: key, Value: val, Condition: gripql.Condition(cond)}}}
+					if negate {
+						e = &gripql.HasExpression{Expression: &gripql.HasExpression_Not{Not: e}}
+					}
+					q := &gripql.GraphQuery{Query: []*gripql.GraphStatement{v, as, out, {Statement: &gripql.GraphStatement_Has{Has: e}}}}
+					c := Case{Kind: "traversal", Graph: "pop", Query: toJSON(q)}
+					if pbt.WantSample(t) {
+						pbt.Sample(t, c)
+					}
+					runCase(t, c)
+					if t.Failed() {
+						return
+					}
+				}
+			}
+		}
+	}
+	pbt.Exhaustive(t)
+}
